@@ -64,13 +64,13 @@ class Run:
         self.dist[k] = self.dist.get(k, 0) + n
 
     # ---- one fit-sequence scenario: real vs documented behaviour, plus the Coq case
-    def fitseq(self, name, table, calls, st, sv, valid_on=True, ops_rng=None, with_coq=True, regress_key=None):
+    def fitseq(self, name, table, calls, st, sv, valid_on=True, ops_rng=None, with_coq=True, regress_key=None, cscripts=None):
         """regress_key: the scenario replays a repaired (status "fixed") finding; a disagreement about the
         firing epochs is reported under that key (a fixed entry suppresses nothing: it is a VIOLATION)."""
         ck = self.ck
-        real, gfinal, err = E.run_real(self.ctx, table, calls, st, sv, valid_on, ops_rng)
-        exp, gexp = E.doc_sim(table, calls, st, sv, valid_on)
-        inp = {'scenario': 'fitseq', 'name': name, 'table': jsonable(E.describe(table)), 'calls': jsonable(calls),
+        real, gfinal, err = E.run_real(self.ctx, table, calls, st, sv, valid_on, ops_rng, cscripts)
+        exp, gexp = E.doc_sim(table, calls, st, sv, valid_on, cscripts)
+        inp = {'scenario': 'fitseq', 'custom_metrics': {k: [list(a), list(b)] for k, (a, b) in (cscripts or {}).items()}, 'name': name, 'table': jsonable(E.describe(table)), 'calls': jsonable(calls),
                'train_losses': list(st), 'valid_losses': list(sv), 'valid_on': valid_on}
         label = f'{name}#{len(self.cases)}'
         nrec = sum(len(r) for r in (real or []))
@@ -78,13 +78,14 @@ class Run:
         ck.add_case((name, json.dumps(jsonable([e['tree'] for e in table])), json.dumps(jsonable(calls)), tuple(st), tuple(sv)),
                     nontrivial=nrec > 0)
         if err is not None:
-            ck.fail(f'{name}/raises/{err.split(":")[0]}', f'a callback / fit() raised {err}', inp, expected=jsonable(exp), actual=jsonable(real))
+            key = regress_key if (regress_key == KNOWN_KEY and err.startswith('KeyError')) else f'{name}/raises/{err.split(":")[0]}'
+            ck.fail(key, ('a repaired defect is back: ' if key == regress_key else '') + f'a callback / fit() raised {err}', inp, expected=jsonable(exp), actual=jsonable(real))
             return None
         d = E.first_difference(real, exp)
         if d is None and gfinal != gexp:
             d = (len(calls) - 1, 0, 'final-global-epoch', {'g': gfinal}, {'g': gexp})
         if with_coq:
-            self.cases.append((label, E.coq_case(table, calls, st, sv, valid_on, real)))
+            self.cases.append((label, E.coq_case(table, calls, st, sv, valid_on, real, cscripts)))
             self.inputs[label] = inp
         if d is None:
             return real
@@ -289,13 +290,23 @@ def actions_mass(run, r, n_runs, coq=True):
     run.fitseq('actions-fixed', table, calls, st, sv, True, None, with_coq=coq)
 
 
+CUSTOM_NAMES = ('mymetric', 'aux_2')       # the second name contains an underscore: partition('_') must split at the FIRST one
+
+
+def custom_scripts(r, calls, lo=0, hi=4):
+    n = sum(max(0, mx) for mx, _ in calls) + 1
+    return {name: ([r.randint(lo, hi) for _ in range(n)], [r.randint(lo, hi) for _ in range(n)]) for name in CUSTOM_NAMES}
+
+
 def rep_leaf(r, dist, kinds=('Up', 'Down', 'Converge', 'Diverge', 'Up', 'Down', 'Below', 'Above')):
     kind = r.choice(kinds)
     arg = r.choice([0, 0, 1, 1, 2, -1]) if kind in ('Up', 'Down') else r.choice([1, 2, 2, 3, -2, 0])
     if kind in ('Below', 'Above'):
         arg = r.randint(0, 4)
     dist['Rep' + kind] = dist.get('Rep' + kind, 0) + 1
-    return ('Rep', kind, arg, r.random() < 0.7, r.choice([0, 1, 1, 2, 2, 3, 4]))
+    mt = r.choice(['loss', 'loss'] + list(CUSTOM_NAMES))
+    dist['metric_' + mt] = dist.get('metric_' + mt, 0) + 1
+    return ('Rep', kind, arg, r.random() < 0.7, r.choice([0, 1, 1, 2, 2, 3, 4]), mt)
 
 
 def mixed_leaf(r, dist):
@@ -323,7 +334,7 @@ def repeated_mass(run, r, n_runs, coq=True):
         if ri % 2 == 0:
             calls[0] = (calls[0][0], [r.random() < 0.5 for _ in table])     # many callbacks are attached late
         st, sv = scripts(r, calls, 0, r.choice([2, 3, 5]))
-        real = run.fitseq('repeated', table, calls, st, sv, valid_on=(ri % 5 != 4), ops_rng=None, with_coq=coq)
+        real = run.fitseq('repeated', table, calls, st, sv, valid_on=(ri % 5 != 4), ops_rng=None, with_coq=coq, cscripts=custom_scripts(r, calls, 0, 3))
         if real is not None and ri < 2:
             ck.sample({'kind': 'repeated-metric callbacks under fit()', 'callbacks': [T.show(e['tree']) for e in table[:5]],
                        'calls': [[mx, mask[:5]] for mx, mask in calls], 'train_losses': st[:12], 'observed_first_call': real[0][:3] if real else []})
@@ -341,7 +352,7 @@ def regressions_repeated(run, r, n_random):
         table = [{'tree': rep_leaf(r, run.dist), 'act': ('rec',)} for _ in range(4)]
         calls = [(r.randint(1, 4), [False] * 4), (r.randint(2, 5), [True] * 4)]
         st, sv = scripts(r, calls, 0, 3)
-        run.fitseq('late-attachment', table, calls, st, sv, True, None, regress_key=KNOWN_LATE)
+        run.fitseq('late-attachment', table, calls, st, sv, True, None, regress_key=KNOWN_LATE, cscripts=custom_scripts(r, calls, 0, 3))
     table = [{'tree': ('Or', [('PL', 4, 0), ('Rep', 'Up', 0, True, 2)]), 'act': ('rec',)}]
     run.fitseq('short-circuit', table, [(5, [True])], [1, 2, 3, 0, 1, 1], [0] * 6, True, None, regress_key=KNOWN_SC)
     for _ in range(n_random):
@@ -349,7 +360,7 @@ def regressions_repeated(run, r, n_random):
         table = [{'tree': (r.choice(['And', 'Or']), [first, rep_leaf(r, run.dist)]), 'act': ('rec',)} for _ in range(4)]
         calls = [(r.randint(3, 6), [True] * 4), (r.randint(0, 4), [True] * 4)]
         st, sv = scripts(r, calls, 0, 3)
-        run.fitseq('short-circuit', table, calls, st, sv, True, None, regress_key=KNOWN_SC)
+        run.fitseq('short-circuit', table, calls, st, sv, True, None, regress_key=KNOWN_SC, cscripts=custom_scripts(r, calls, 0, 3))
     run.fitseq('below-above', [{'tree': ('Rep', 'Below', 1, True, 1), 'act': ('rec',)}], [(5, [True])], [0, 0, 0, 5, 0, 0], [0] * 6, True, None,
                regress_key=KNOWN_BA)
     run.fitseq('below-above', [{'tree': ('Rep', 'Above', 1, False, 2), 'act': ('rec',)}], [(2, [True]), (3, [True])], [0] * 6, [3, 3, 0, 3, 3, 3], True, None,
@@ -358,11 +369,12 @@ def regressions_repeated(run, r, n_random):
         table = [{'tree': rep_leaf(r, run.dist, ('Below', 'Above')), 'act': ('rec',)} for _ in range(4)]
         calls = gen_calls(r, 4)
         st, sv = scripts(r, calls, 0, 4)
-        run.fitseq('below-above', table, calls, st, sv, True, None, regress_key=KNOWN_BA)
+        run.fitseq('below-above', table, calls, st, sv, True, None, regress_key=KNOWN_BA, cscripts=custom_scripts(r, calls, 0, 4))
 
 
 def custom_metric_key(run):
-    """A metric name documented as valid ('present in solver.metrics_fn.keys()')."""
+    """Regression probe of the repaired finding metric-name/custom-metric-KeyError (status fixed, commit 98a9d3c):
+    its recorded input is replayed on every run; a KeyError is reported under the recorded key (a VIOLATION)."""
     ck = run.ck
     torch, CB = run.torch, run.CB
     for what, mk in (('RepeatedMetricUp', lambda: CB.RepeatedMetricUp(metric='m', repetition=1)),
@@ -382,7 +394,7 @@ def custom_metric_key(run):
             s.fit(3, callbacks=[cb], tqdm_file=None)
         except KeyError as ex:
             if ex.args and ex.args[0] == 'train_m' and 'train__m' in s.metrics_history:
-                ck.fail(KNOWN_KEY, f"{what}(metric='m') with metrics={{'m': ...}} raises KeyError('train_m'): the history key is 'train__m'", inp,
+                ck.fail(KNOWN_KEY, f"a repaired defect is back: {what}(metric='m') with metrics={{'m': ...}} raises KeyError('train_m'): the history key is 'train__m'", inp,
                         expected='no exception; the callback reads metrics_history["train__m"]', actual="KeyError('train_m')")
             else:
                 ck.fail(f'metric-name/{what}/raises', f'{what} raised KeyError({ex})', inp)
@@ -393,6 +405,8 @@ def custom_metric_key(run):
         # no exception (a repaired tree): the constant metric never goes up by > 0 ... at_least_by = 0 means >=, so it fires from epoch 2
         if what == 'RepeatedMetricUp' and fired != [2, 3]:
             ck.fail(f'metric-name/{what}/fires', f'fired at {fired}, documented [2, 3]', inp, expected=[2, 3], actual=fired)
+        if what == 'EveCallback' and s.n_batches['train'] != 1:
+            ck.fail(f'metric-name/{what}/batch-count', f"n_batches[train] = {s.n_batches['train']}, documented 1 (metric == base_value)", inp, expected=1, actual=s.n_batches['train'])
 
 
 def monitor(run, r):
@@ -570,13 +584,17 @@ def eve(run, r, n_cases, n_goals):
             expr = f'((ln ({float_lit(v)}) - ln ({float_lit(v0)})) / ln ({float_lit(p)}))'
             run.goals.append((f'eve-log#{ci}', expr, j + frac, '(1 / 1000)'))
     # under a real fit(): scripted float losses, the next epoch really runs n batches
-    for ui in range(3):
+    for ui in range(5):
         p, v0, n0, nmax = r.choice([0.1, 0.5]), r.choice([1.0, 2.0]), r.randint(1, 2), r.choice([None, 6])
         exps = [r.randint(-2, 3) + r.choice([0.25, 0.5, 0.75]) for _ in range(5)]
         vals = [v0 * p ** e for e in exps]
-        s = run.ctx.solver(valid_on=True)
-        holder = {'s': s}
-        s._set_loss_fn(E.scripted_loss(holder, vals + [1.0], vals + [1.0]))
+        metric = {3: 'mymetric', 4: 'aux_2'}.get(ui, 'loss')          # custom metrics: train phase (3), valid phase (4)
+        holder = {}
+        mfn = None if metric == 'loss' else {metric: E.scripted_metric(holder, metric, vals + [1.0], vals + [1.0], run.torch)}
+        s = run.ctx.solver(valid_on=True, metrics=mfn)
+        holder['s'] = s
+        lossvals = vals if metric == 'loss' else [1.0] * 5
+        s._set_loss_fn(E.scripted_loss(holder, lossvals + [1.0], lossvals + [1.0]))
         seen = []
         batches = []
         orig = s._generate_batch
@@ -591,8 +609,8 @@ def eve(run, r, n_cases, n_goals):
             def __call__(self, sol):
                 pass
         kw = {} if nmax is None else {'n_max': nmax}
-        ev = CB.EveCallback(base_value=v0, double_at=p, n_0=n0, use_train=(ui != 1), **kw)
-        inp = {'scenario': 'eve-fit', 'base_value': v0, 'double_at': p, 'n_0': n0, 'n_max': nmax, 'exponents': exps}
+        ev = CB.EveCallback(base_value=v0, double_at=p, n_0=n0, use_train=(ui not in (1, 4)), metric=metric, **kw)
+        inp = {'scenario': 'eve-fit', 'metric': metric, 'use_train': ui not in (1, 4), 'base_value': v0, 'double_at': p, 'n_0': n0, 'n_max': nmax, 'exponents': exps}
         try:
             for _ in range(5):
                 batches.append(0)
@@ -600,10 +618,11 @@ def eve(run, r, n_cases, n_goals):
                 if not (0 <= seen[-1] <= 64):      # do not train thousands of batches for a wrong count
                     s.n_batches['train'] = 1
         except Exception as ex:
-            ck.fail('EveCallback/raises', f'{type(ex).__name__}: {ex}', inp)
+            ck.fail(KNOWN_KEY if (isinstance(ex, KeyError) and metric != 'loss') else 'EveCallback/raises',
+                    ('a repaired defect is back: ' if isinstance(ex, KeyError) and metric != 'loss' else '') + f'EveCallback(metric={metric!r}) raised {type(ex).__name__}: {ex}', inp)
             continue
         want = [min(n0 * 2 ** max(0, math.floor(e)), nmax) if nmax else n0 * 2 ** max(0, math.floor(e)) for e in exps]
-        ck.add_case(('eve-fit', p, v0, n0, nmax, tuple(exps)))
+        ck.add_case(('eve-fit', metric, p, v0, n0, nmax, tuple(exps)))
         ck.traces += 5
         if seen != want:
             ck.fail('EveCallback/batch-count', f'n_batches[train] after each epoch {seen}, documented {want}', inp, expected=want, actual=seen)
@@ -643,7 +662,8 @@ def replay(ck, run, path):
     table = [{'tree': tree_from_json(e['tree']), 'act': tuple(e['act'])} for e in inp['table']]
     calls = [(mx, list(mask)) for mx, mask in inp['calls']]
     name = inp.get('name', 'replay')
-    run.fitseq(name, table, calls, inp['train_losses'], inp['valid_losses'], inp['valid_on'], None, with_coq=True, regress_key=REGRESS.get(name))
+    cs = {k: (a, b) for k, (a, b) in (inp.get('custom_metrics') or {}).items()} or None
+    run.fitseq(name, table, calls, inp['train_losses'], inp['valid_losses'], inp['valid_on'], None, with_coq=True, regress_key=REGRESS.get(name), cscripts=cs)
     run.settle()
     return True
 
@@ -699,7 +719,7 @@ def main():
     timed('interval_goals', ck.step_interval_goals, 'eve', run.goals)
     ck.extra['stage_s'] = stage
 
-    known_keys = {KNOWN_KEY}
+    known_keys = set()
     if ck.broken and not [f for f in ck.failures if f['key'] not in known_keys]:
         # search: a broken obligation without a failing input so far -> widen the oracle run (implementation vs
         # documented behaviour only, no Coq), on fresh random inputs of every scenario family
@@ -713,7 +733,7 @@ def main():
         run.cases = []
 
     ck.extra['input_distribution'] = dict(sorted(run.dist.items()))
-    ck.extra['known_finding_keys'] = {'open': [KNOWN_KEY], 'fixed (replayed, must pass)': [KNOWN_F5, KNOWN_LATE, KNOWN_SC, KNOWN_BA]}
+    ck.extra['known_finding_keys'] = {'open': [], 'fixed (replayed, must pass)': [KNOWN_F5, KNOWN_LATE, KNOWN_SC, KNOWN_BA, KNOWN_KEY]}
     ck.finish(
         trusted_extra=['tools/props/t_C16.py (syntax-directed emitter callbacks.py -> gen/Gen_C16.v; its prelude fixes the meaning of np.inf, min, `x or np.inf`, history[-1-k], OrderedSet, int())',
                        'Flocq (Zfloor / Ztrunc) and the Coq Reals library for C16_eve_spec; Interval tactic for the in-kernel log goals',
@@ -721,7 +741,7 @@ def main():
                        'modelled not verified: float64 log / division / + EPS in EveCallback (taken as real operations); IEEE comparisons of the '
                        'scripted integer-valued metric values (exact); torch optimiser step rule; tqdm_file=None path of fit()'],
         assumptions=['n_batches_train >= 1 (global epoch grows by one per epoch); period <> 0; Eve: v, v_0 > 0, p > 0, p <> 1, fractional part of log_p(v/v_0) below 1 - 1e-4',
-                     'repeated-metric callbacks read the train / valid LOSS history (the custom-metric key is an open recorded finding: KeyError)',
+                     'custom metric names: no recorded key is literally <phase>_<name> (i.e. the name is not "loss" and not "_x" beside a metric "x"); then the callbacks read the solver\'s <phase>__<name> series',
                      'OrderedSet is modelled as order-preserving de-duplication keeping the first occurrence (dedup); parameter identity = Python object identity'])
 
 
